@@ -176,7 +176,7 @@ def vtree():
     def tag(children):
         return st.builds(
             lambda nm, ws, attrs, kids, vc: {"k": "tag", "name": nm, "ws": ws, "attrs": attrs, "kids": kids, "via_consolidate": vc},
-            st.sampled_from(["div", "p", "span", "b", "ul", "x-y"]),
+            st.sampled_from(["div", "p", "span", "b", "ul", "x-y"] + gen.SPECIAL_NAMES + gen.RAWISH_NAMES + ["br", "input"]),
             st.booleans(),
             attr,
             st.lists(children, max_size=4),
